@@ -104,6 +104,7 @@ class FuncExec(ExprMixin, CallMixin):
         self.synth_keep = []
         self.array_facts = {}     # array const name -> [facts]
         self.loop_frames = {}
+        self.loop_excl = {}
         self.probe_callees = set()
         self.extra_axioms = {}    # key -> definitional axiom of a spec function used in this function
 
@@ -764,15 +765,22 @@ class FuncExec(ExprMixin, CallMixin):
                         names.add(n)
             if whole:
                 mods = "*"
+            keep = [o for o in st.unescaped if all(any(o.eq(u) for u in s2.unescaped) for s2, _o in outs)]
         else:
             ghosts = set()
             acls = None
+            keep = []
         pre_heap = st.heap.copy()
         if mods == "*":
             st.heap = st.heap.havoc_all()
             for f in self.eng.wf(st.heap):
                 st.assume(f)
-            # (contents of fresh local containers across iterations are the loop invariant's business)
+            # fresh local objects the body never lets escape stay unreferenced by the rest of the heap
+            # (their contents across iterations are the loop invariant's business)
+            saved = st.unescaped
+            st.unescaped = keep
+            self.keep_unescaped(st, pre_heap, contents=False)
+            st.unescaped = saved
         else:
             # fields the contract does not list as modified can only be written at objects allocated
             # inside this function: keep the loop-entry values of every pre-existing object (checked
@@ -783,13 +791,18 @@ class FuncExec(ExprMixin, CallMixin):
             plain = [f for f in sorted(mods) if f not in framed]
             st.heap.havoc_fields(plain)
             al = pre_heap.get("$alloc")
+            # local containers the loop itself mutates are excluded from the frame (their contents are the
+            # loop invariant's business): contract label loop_mutates = {loop ordinal: [local names]}
+            excl = [st.locals[n] for n in self.contract.labels.get("loop_mutates", {}).get(k, []) if n in st.locals]
             for f in framed:
                 fr = z3.Const(fresh_name(f + "@lf"), field_sort(f))
                 x = z3.Const(fresh_name("x!lf"), V)
                 st.heap.set(f, fr)
-                st.assume(smt.forall([x], z3.Implies(z3.Select(al, x), z3.Select(fr, x) == z3.Select(pre_heap.get(f), x)),
+                guard = z3.And(z3.Select(al, x), *[x != e for e in excl])
+                st.assume(smt.forall([x], z3.Implies(guard, z3.Select(fr, x) == z3.Select(pre_heap.get(f), x)),
                                     patterns=[z3.Select(fr, x)]))
             self.loop_frames[k] = (framed, pre_heap, None)
+            self.loop_excl[k] = excl
             if "$alloc" in mods:
                 x = z3.Const(fresh_name("x!al"), V)
                 st.assume(smt.forall([x], z3.Implies(pre_heap.sel("$alloc", x), st.heap.sel("$alloc", x))))
@@ -856,7 +869,8 @@ class FuncExec(ExprMixin, CallMixin):
                 self.oblige(st, kind, "loop%d.alloc-classes" % k, g, ln)
             for f in framed:
                 x = z3.Const(fresh_name("x!lfc"), V)
-                g = smt.forall([x], z3.Implies(ph.sel("$alloc", x), z3.Select(st.heap.get(f), x) == z3.Select(ph.get(f), x)))
+                guard = z3.And(ph.sel("$alloc", x), *[x != e for e in self.loop_excl.get(k, [])])
+                g = smt.forall([x], z3.Implies(guard, z3.Select(st.heap.get(f), x) == z3.Select(ph.get(f), x)))
                 self.oblige(st, kind, "loop%d.frame:%s" % (k, f), g, ln)
 
     def assume_inv(self, st, inv, pre):
